@@ -422,12 +422,21 @@ def check_property(prop, tier="quick", seed=0, only_unit=None, jobs=None, verbos
     for u in sel:
         if u.note:
             assumptions.append(f"{u.name}: {u.note}")
+    bounded_only = n_obl == 0 and bounded["jobs"] > 0
+    bsamples = []
+    for res in results:
+        if res.get("bounded") and len(bsamples) < 4:
+            bsamples.append({"unit": res["unit"], "skeleton": res["skeleton"], "concrete_runs": res["conc_runs"], "contract_clauses_evaluated": res.get("bounded_checked", 0)})
     ev = {
         "property_id": prop,
         "tier": tier,
         "seed": seed,
-        "level": "proof",
+        "level": "exploration" if bounded_only else "proof",
         "coverage": {
+            "evaluations": bounded["evaluations"] + conc_runs,
+            "distinct_nontrivial": sum(1 for res in results if res.get("bounded") and res.get("bounded_checked", 0) > 0),
+            "rule": "bounded stand-in: one case = one (unit, skeleton) pair evaluated on seeded pseudo-random concrete inputs by running the real function and evaluating its contract; a pair counts as non-trivial when at least one contract clause was evaluated (measured); distinct pairs are counted once",
+            "bounded_samples": bsamples,
             "obligations": n_obl,
             "discharged": n_dis,
             "refuted": n_ref,
@@ -453,7 +462,7 @@ def check_property(prop, tier="quick", seed=0, only_unit=None, jobs=None, verbos
                 "contract_clauses_evaluated": bounded["contract_clauses_evaluated"],
                 "bound": "sizes 1..6 per dimension, seeded pseudo-random entries",
             },
-            "samples": samples[:6],
+            "samples": (samples[:6] or bsamples or [{"note": "no sample"}]),
             "explanation": "obligations are generated on every run by executing the real functions of /repo/flodym on symbolic values (sizes, entries, items symbolic; rank/letter skeleton enumerated) and discharged by z3 (cvc5 on unknown)",
         },
         "assumptions": assumptions,
